@@ -1,6 +1,247 @@
-//! C14 harness commands (stub).
-use std::io::Write;
+//! C14: diagnostics name the right file and line.
+//!
+//! `hx c14 inproc`
+//!     case line: `<id> root=<enc path> <enc path>=<enc content> ...`  (FakeFileSystem, plain renderer)
+//!     runs `report::process` and prints what the error *values* carry (taken from their `Debug` output, the fields
+//!     are private) next to the rendered diagnostic:
+//!       `<id> res=ok`
+//!       `<id> res=bk kind=<BookKeepError variant> path=<enc> ls=<line_start> pspan=<a>..<b> text=<enc> tspans=<a..b;c..d|-> rendered=<enc>`
+//!       `<id> res=parse path=<enc> ls=<line_start> espan=<a>..<b> inputlen=<bytes> rendered=<enc>`
+//!       `<id> res=load kind=<LoadError variant> rendered=<enc>`
+//!       `<id> res=panic msg=<enc>`
+//!     tspans are in the order `ErrorContext::print` annotates them.
+//! The real binary / real file system goes through `hx c06 cli` (stderr is returned there).
+use std::io::{BufRead, Write};
 
-pub fn run(_args: &[String], _out: &mut dyn Write) -> i32 {
+use bumpalo::Bump;
+use okane_core::report::{self, ReportContext};
+use okane_core::load;
+
+use crate::proc;
+use crate::sx::{self, enc};
+
+/// Parses a Rust `Debug`-escaped string literal starting right after the opening quote.
+/// Returns (unescaped, index just after the closing quote).
+fn debug_str(s: &str, start: usize) -> Option<(String, usize)> {
+    let mut out = String::new();
+    let mut it = s[start..].char_indices();
+    while let Some((i, c)) = it.next() {
+        match c {
+            '"' => return Some((out, start + i + 1)),
+            '\\' => {
+                let (_, e) = it.next()?;
+                match e {
+                    'n' => out.push('\n'),
+                    'r' => out.push('\r'),
+                    't' => out.push('\t'),
+                    '0' => out.push('\0'),
+                    '\\' => out.push('\\'),
+                    '"' => out.push('"'),
+                    '\'' => out.push('\''),
+                    'u' => {
+                        // \u{XXXX}
+                        let (_, b) = it.next()?;
+                        if b != '{' {
+                            return None;
+                        }
+                        let mut hex = String::new();
+                        loop {
+                            let (_, h) = it.next()?;
+                            if h == '}' {
+                                break;
+                            }
+                            hex.push(h);
+                        }
+                        out.push(char::from_u32(u32::from_str_radix(&hex, 16).ok()?)?);
+                    }
+                    _ => return None,
+                }
+            }
+            c => out.push(c),
+        }
+    }
+    None
+}
+
+fn range_at(s: &str, start: usize) -> Option<(usize, usize, usize)> {
+    // `<a>..<b>` starting at `start`; returns (a, b, index after)
+    let rest = &s[start..];
+    let dots = rest.find("..")?;
+    let a: usize = rest[..dots].parse().ok()?;
+    let after = &rest[dots + 2..];
+    let end = after.find(|c: char| !c.is_ascii_digit()).unwrap_or(after.len());
+    let b: usize = after[..end].parse().ok()?;
+    Some((a, b, start + dots + 2 + end))
+}
+
+fn num_at(s: &str, start: usize) -> Option<(usize, usize)> {
+    let rest = &s[start..];
+    let end = rest.find(|c: char| !c.is_ascii_digit()).unwrap_or(rest.len());
+    Some((rest[..end].parse().ok()?, start + end))
+}
+
+/// fields of `ErrorContext { renderer: .., path: "..", line_start: N, text: "..", parsed_span: ParsedSpan(a..b) }`
+fn error_context_fields(dbg: &str) -> Option<(String, usize, String, (usize, usize))> {
+    let key = ", path: \"";
+    let i = dbg.find(key)? + key.len();
+    let (path, j) = debug_str(dbg, i)?;
+    let key2 = ", line_start: ";
+    if !dbg[j..].starts_with(key2) {
+        return None;
+    }
+    let (ls, k) = num_at(dbg, j + key2.len())?;
+    let key3 = ", text: \"";
+    if !dbg[k..].starts_with(key3) {
+        return None;
+    }
+    let (text, l) = debug_str(dbg, k + key3.len())?;
+    let key4 = ", parsed_span: ParsedSpan(";
+    if !dbg[l..].starts_with(key4) {
+        return None;
+    }
+    let (a, b, _) = range_at(dbg, l + key4.len())?;
+    Some((path, ls, text, (a, b)))
+}
+
+/// fields of `ParseError(ParseErrorImpl { renderer: .., error_span: a..b, input: "..", line_start: N, winnow_error: .. })`
+fn parse_error_fields(dbg: &str) -> Option<((usize, usize), usize, usize)> {
+    let key = ", error_span: ";
+    let i = dbg.find(key)? + key.len();
+    let (a, b, j) = range_at(dbg, i)?;
+    let key2 = ", input: \"";
+    if !dbg[j..].starts_with(key2) {
+        return None;
+    }
+    let (input, k) = debug_str(dbg, j + key2.len())?;
+    let key3 = ", line_start: ";
+    if !dbg[k..].starts_with(key3) {
+        return None;
+    }
+    let (ls, _) = num_at(dbg, k + key3.len())?;
+    Some(((a, b), input.len(), ls))
+}
+
+fn span_after(dbg: &str, key: &str) -> Option<(usize, usize)> {
+    let i = dbg.find(key)? + key.len();
+    let (a, b, _) = range_at(dbg, i)?;
+    Some((a, b))
+}
+
+fn all_tracked(dbg: &str) -> Vec<(usize, usize)> {
+    let mut out = Vec::new();
+    let key = "TrackedSpan(";
+    let mut at = 0;
+    while let Some(i) = dbg[at..].find(key) {
+        let st = at + i + key.len();
+        if let Some((a, b, e)) = range_at(dbg, st) {
+            out.push((a, b));
+            at = e;
+        } else {
+            at = st;
+        }
+    }
+    out
+}
+
+/// tracked spans of a BookKeepError in the order `ErrorContext::print` uses them
+fn tracked_in_print_order(kind: &str, dbg: &str) -> Vec<(usize, usize)> {
+    match kind {
+        "BalanceAssertionFailure" => {
+            let b = span_after(dbg, "balance_span: TrackedSpan(");
+            let a = span_after(dbg, "account_span: TrackedSpan(");
+            [b, a].into_iter().flatten().collect()
+        }
+        "ExchangeWithAmountCommodity" => {
+            let p = span_after(dbg, "posting_amount: TrackedSpan(");
+            let x = span_after(dbg, "exchange: TrackedSpan(");
+            [p, x].into_iter().flatten().collect()
+        }
+        "UndeduciblePostingAmount" | "ZeroAmountWithExchange" | "ZeroExchangeRate" => all_tracked(dbg),
+        _ => Vec::new(),
+    }
+}
+
+fn show_spans(v: &[(usize, usize)]) -> String {
+    if v.is_empty() {
+        "-".to_string()
+    } else {
+        v.iter().map(|(a, b)| format!("{}..{}", a, b)).collect::<Vec<_>>().join(";")
+    }
+}
+
+fn one(files: &proc::Files, root: &str) -> String {
+    let arena = Bump::new();
+    let mut ctx = ReportContext::new(&arena);
+    let res = report::process(&mut ctx, proc::fake_loader(files, root), &report::ProcessOptions::default());
+    match res {
+        Ok(_) => "res=ok".to_string(),
+        Err(e) => {
+            let rendered = proc::render_chain(&e);
+            match &e {
+                report::ReportError::BookKeep(be, ectx) => {
+                    let bdbg = format!("{:?}", be);
+                    let kind = bdbg.split(['(', ' ', '{']).next().unwrap_or("?").to_string();
+                    let cdbg = format!("{:?}", ectx);
+                    match error_context_fields(&cdbg) {
+                        Some((path, ls, text, (a, b))) => format!(
+                            "res=bk kind={} path={} ls={} pspan={}..{} text={} tspans={} rendered={}",
+                            kind,
+                            enc(&path),
+                            ls,
+                            a,
+                            b,
+                            enc(&text),
+                            show_spans(&tracked_in_print_order(&kind, &bdbg)),
+                            enc(&rendered)
+                        ),
+                        None => format!("res=bk kind={} undecodable={} rendered={}", kind, enc(&cdbg), enc(&rendered)),
+                    }
+                }
+                report::ReportError::Load(load::LoadError::Parse(pe, path)) => {
+                    let pdbg = format!("{:?}", pe);
+                    match parse_error_fields(&pdbg) {
+                        Some(((a, b), inputlen, ls)) => format!(
+                            "res=parse path={} ls={} espan={}..{} inputlen={} rendered={}",
+                            enc(&path.display().to_string()),
+                            ls,
+                            a,
+                            b,
+                            inputlen,
+                            enc(&rendered)
+                        ),
+                        None => format!("res=parse path={} undecodable={} rendered={}", enc(&path.display().to_string()), enc(&pdbg), enc(&rendered)),
+                    }
+                }
+                report::ReportError::Load(le) => format!("res=load kind={} rendered={}", proc::load_err_kind(le), enc(&rendered)),
+                report::ReportError::PriceDB(_) => format!("res=pricedb rendered={}", enc(&rendered)),
+            }
+        }
+    }
+}
+
+pub fn run(args: &[String], out: &mut dyn Write) -> i32 {
+    match args.first().map(|s| s.as_str()) {
+        Some("inproc") | None => {}
+        _ => {
+            eprintln!("usage: hx c14 inproc");
+            return 2;
+        }
+    }
+    let stdin = std::io::stdin();
+    for line in stdin.lock().lines() {
+        let line = line.unwrap();
+        let ws: Vec<&str> = line.split(' ').filter(|w| !w.is_empty()).collect();
+        if ws.len() < 2 {
+            writeln!(out, "bad-case").unwrap();
+            continue;
+        }
+        let (files, root) = proc::decode_files(&ws[1..]);
+        let r = sx::catch(move || one(&files, &root));
+        match r {
+            Ok(s) => writeln!(out, "{} {}", ws[0], s).unwrap(),
+            Err(msg) => writeln!(out, "{} res=panic msg={}", ws[0], enc(&msg)).unwrap(),
+        }
+        out.flush().unwrap();
+    }
     0
 }
